@@ -163,6 +163,11 @@ def external_calls(prog, rep):
             if isinstance(f, ast.Name):
                 r = prog.lookup(fi, f.id)
                 ok = isinstance(r, (FuncInfo, ClassInfo)) or f.id in SAFE_NAMES or f.id in good or f.id in fi.params or prog.is_registry_value(f, fi)
+                # the function a decorator wraps: a parameter of an enclosing function, whatever it is called
+                o_ = fi.outer
+                while not ok and o_ is not None:
+                    ok = f.id in o_.params
+                    o_ = o_.outer
             elif isinstance(f, ast.Attribute):
                 root = f.value
                 while isinstance(root, ast.Attribute):
